@@ -166,7 +166,7 @@ impl Property for C02 {
     }
     fn cases(&self, tier: Tier) -> usize {
         match tier {
-            Tier::Quick => 20_000,
+            Tier::Quick => 30_000,
             Tier::Thorough => 600_000,
         }
     }
